@@ -82,6 +82,8 @@ func tokCoq(ts []tok) string {
 			parts[i] = "TNot"
 		case "lp":
 			parts[i] = "TLP"
+		case "pipe":
+			parts[i] = "TPipe"
 		default:
 			parts[i] = "TRP"
 		}
@@ -597,6 +599,38 @@ func exprCase(w *casefile.Writer, e *expr, full, seqql bool, r *rng.R) {
 		"expr-"+mode+"-"+pname, hn && hb, map[string]any{"query": q, "expr": e.coq()}, o.text)
 }
 
+// pipe sections appended to SeqQL expressions (this version knows only the `fields` pipe and
+// allows at most one of them, so "several pipes" is always a parse error and is not listed)
+var pipeSuffixes = []string{" | fields a", " | fields except a, b", "| fields a", " |fields `x y`, b*", "\n| fields except \"m\" # c", " | FIELDS k", " | fields t, k.x"}
+
+// exprPipeCase: the expression followed by a pipe section must parse (SeqQL) to a query with the
+// denotation of the expression alone (spec on the implementation's AST: truth table)
+func exprPipeCase(w *casefile.Writer, e *expr, full bool, suffix string, r *rng.R) {
+	var ts []tok
+	if full {
+		ts = renderFull(e)
+	} else {
+		ts = render(0, e)
+	}
+	q := text(ts, true, r) + suffix
+	ts = append(append([]tok{}, ts...), tok{kind: "pipe"})
+	o, p := runParser(true, q)
+	if p != nil {
+		w.Violate("panic:expr-pipe:seqql", fmt.Sprintf("seqql parser panics: %v", p), map[string]any{"query": q})
+		return
+	}
+	hn, hb := e.hasNotAndBinary()
+	mode := "min"
+	if full {
+		mode = "full"
+	}
+	if e.kind == "or" {
+		w.Count("pipe:top-level-or")
+	}
+	w.Add(fmt.Sprintf("CExprPipe %s %s %s %s", e.coq(), casefile.Bool(full), tokCoq(ts), o.coq),
+		"expr-pipe-"+mode+"-seqql", (hn && hb) || e.kind == "or", map[string]any{"query": q, "expr": e.coq()}, o.text)
+}
+
 func main() {
 	seed := flag.Uint64("seed", 1, "")
 	tier := flag.String("tier", "quick", "")
@@ -625,22 +659,28 @@ func main() {
 	}
 	// (a) exhaustive: all boolean trees up to maxSize nodes over 3 atoms, both renderings, both parsers
 	memo := map[int][]*expr{}
+	npipe := 0
 	for size := 1; size <= maxSize; size++ {
 		for _, e := range enumerate(size, 3, memo) {
 			for _, full := range []bool{false, true} {
 				for _, seqql := range []bool{true, false} {
 					exprCase(w, e, full, seqql, nil)
 				}
+				exprPipeCase(w, e, full, pipeSuffixes[npipe%len(pipeSuffixes)], nil)
+				npipe++
 			}
 		}
 	}
 	w.Exhaust = true
-	w.Extra["exhaustive_scope"] = fmt.Sprintf("all boolean expression trees with <= %d nodes over 3 atoms x {minimal, full} parentheses x {SeqQL, legacy}", maxSize)
+	w.Extra["exhaustive_scope"] = fmt.Sprintf("all boolean expression trees with <= %d nodes over 3 atoms x {minimal, full} parentheses x {SeqQL, legacy, SeqQL + pipe section}", maxSize)
 	// (b) random deeper expressions with in(...) and multi-word text fields, random keyword case/spacing
 	for i := 0; i < nRand; i++ {
 		seqql := r.Bool()
 		e := randExpr(r, r.Range(2, 6), seqql)
 		exprCase(w, e, r.Bool(), seqql, r)
+		if seqql {
+			exprPipeCase(w, e, r.Bool(), rng.Pick(r, pipeSuffixes), r)
+		}
 	}
 	// (c) arbitrary / malformed token lists
 	for i := 0; i < nToks; i++ {
